@@ -31,7 +31,7 @@ CHECKS = {
          'DESIGN.md 5.2, 6/C06'),
  'C09': (True, 'model_checking',
          'TLA+ reference NameUri checked by TLC on enumerated domains (NameUriMC); TLC-computed spellings/wires/sorted domains replayed on ndn.encoding.Name/Component; library outputs judged by TLC (NameUriJudge)',
-         'TLC evaluates an executable TLA+ reference of the NDN name grammar over exhaustive bounded domains and checks that shorthand and canonical text round-trip, every generated spelling/slash variant/wire form denotes the same name, canonical text uses no shorthand, byte order of shortest-form encodings equals NDN canonical order, and the prefix test equals component-wise equality. Every enumerated state is replayed into Name/Component in every accepted input form and every pair compared with Python ordering and is_prefix; library printing of the enumerated components and of random larger names is parsed back by the reference inside TLC.',
+         'TLC evaluates an executable TLA+ reference of the NDN name grammar over exhaustive bounded domains and checks that shorthand and canonical text round-trip, every generated spelling/slash variant/wire form denotes the same name, canonical text uses no shorthand, byte order of shortest-form encodings equals NDN canonical order, and the prefix test equals component-wise equality. Every enumerated state is replayed into Name/Component in every accepted input form and every pair compared with Python ordering and is_prefix; library printing of the enumerated components and of random larger names is parsed back by the reference inside TLC. Arbitrary text (19 ASCII + 42 non-ASCII characters of every category in 44 templates) is handed to Component.from_str directly; Name.to_bytes results must not follow the caller\'s buffer.',
          'Trusted: TLC, the transcription of the documented grammar, Python bytes/list comparison. Bounded: exhaustive over 5343 components, names <=3 components over 14/30 representatives, 85/400 names pairwise; random names <=8 components, values <=300 bytes. Not compared: order of the full Name TLV including its outer length; what the library accepts beyond the reference grammar.',
          'DESIGN.md 5.4, 6/C09'),
  'C19': (True, 'model_checking',
@@ -41,7 +41,7 @@ CHECKS = {
          'DESIGN.md 6/C19'),
  'C20': (True, 'model_checking',
          'TLA+ reference ClientConf checked by TLC over the enumerated product (ClientConfMC); each state materialised on disk/environment and compared with read_client_conf, default_keychain, default_face; random configurations judged by TLC (ClientConfJudge)',
-         'TLC enumerates the product of configuration sources (file existence patterns x key present/absent/commented x environment subsets x store-location classes x default-location existence) and transport URIs. The clauses of the statement are invariants on a layered reference. Every state is materialised in a scratch tree with an injected Platform and compared with read_client_conf / default_keychain / default_face; random larger configurations and URIs are judged by TLC.',
+         'TLC enumerates the product of configuration sources (file existence patterns x key present/absent/commented x environment subsets x store-location classes x default-location existence) and transport URIs. The clauses of the statement are invariants on a layered reference. Every state is materialised in a scratch tree with an injected Platform and compared with read_client_conf / default_keychain / default_face; random larger configurations and URIs are judged by TLC. Every candidate and store location is a file-system object of some kind (file, link, directory, dangling link, loop; reached through linked directories); an existing PIB location holds its key-file directory.',
          'Trusted: TLC; replacing the Platform singleton by a Linux subclass whose path lists point into the scratch tree (real Linux lists checked separately under a patched HOME); macOS/Windows classes not importable. Bounded: 4 candidate files with <=2 existing exhaustively, <=6 files in random runs. When neither the given location nor any default exists any candidate is accepted.',
          'DESIGN.md 5.11, 6/C20'),
 }
@@ -50,7 +50,7 @@ CHECKS = {
 CHECKS.update({
  'C01': (True, 'model_checking',
          'TLA+ layout algebra NdnPackets checked by TLC over an enumerated configuration space; TLC-enumerated expected element layouts replayed on make_interest/make_data/parse_*; recorded calls judged by TLC (NdnPacketsTrace)',
-         'TLC checks on every enumerated configuration (name shapes x optional-field subsets x payload lengths on every 253/65536 boundary before and after shrink x signer models incl. every small reserve/actual pair) that the imperative two-pass encode plus shrink yields exactly the declaratively well-formed tree; each configuration is then built with the real library and real signers and its wire compared entry by entry (type, offset, header width, length) through an independent strict reader, and parse_* must return the caller\'s fields; random configurations and every payload length 0..70000 for three configurations are recorded and accepted only if TLC\'s reference reproduces the observed layout.',
+         'TLC checks on every enumerated configuration (name shapes x optional-field subsets x payload lengths on every 253/65536 boundary before and after shrink x signer models incl. every small reserve/actual pair) that the imperative two-pass encode plus shrink yields exactly the declaratively well-formed tree; each configuration is then built with the real library and real signers and its wire compared entry by entry (type, offset, header width, length) through an independent strict reader, and parse_* must return the caller\'s fields; random configurations and every payload length 0..70000 for three configurations are recorded and accepted only if TLC\'s reference reproduces the observed layout. Every name-valued and octet-string parameter (packet name, each ForwardingHint delegation, KeyLocator, FinalBlockId, payloads) comes in every representation a NonStrictName / BinaryStr may take (16 x 3 forms).',
          'Trusted: TLC, strict_tlv reader, PyCryptodome. Bounded: <=3 components exhaustively, <=8 components / 70000-byte payloads in traces; 9-byte TLV numbers not reachable (32-bit TLC ints). Payload content equality is a harness comparison.',
          'DESIGN.md 5.3, 6/C01'),
  'C02': (True, 'model_checking',
@@ -65,7 +65,7 @@ CHECKS.update({
          'DESIGN.md 5.1, 6/C10'),
  'C16': (True, 'model_checking',
          'TLA+ certificate layout (NdnPacketsCert) and calendar oracle (CertTime) checked by TLC; TLC-enumerated issue requests replayed on self_sign/sign_req/derive_cert with a patched clock; PyCryptodome verification over the spec signed range; recorded issuances judged by TLC',
-         'TLC checks the closed-form calendar against the naively stated one day by day (incl. 2100, 2400, 9999) and cross-checks it with datetime on 400 instants, and checks LawCert (name = key-name/issuer/version, ContentType KEY, validity shape, locator, signed range, exact lengths after shrink) on every enumerated request; each request (subject key type x issuing signer incl. every ECDSA DER length x issuer-id form x start x lifetime x zone x clock) is executed on the real functions, the certificate compared entry by entry, validity text compared with CertTime rendering, the signature verified under the issuing key, and parse_certificate/parse_data compared; random requests are recorded and judged by TLC.',
+         'TLC checks the closed-form calendar against the naively stated one day by day (incl. 2100, 2400, 9999) and cross-checks it with datetime on 400 instants, and checks LawCert (name = key-name/issuer/version, ContentType KEY, validity shape, locator, signed range, exact lengths after shrink) on every enumerated request; each request (subject key type x issuing signer incl. every ECDSA DER length x issuer-id form x start x lifetime x zone x clock) is executed on the real functions, the certificate compared entry by entry, validity text compared with CertTime rendering, the signature verified under the issuing key, and parse_certificate/parse_data compared; random requests are recorded and judged by TLC. The subject key is handed over in every encoding and buffer kind the API accepts (the Content must be exactly those bytes); DST zones include ones whose standard offset is zero.',
          'Years 1970..9999; self_sign/sign_req periods are only required to be well-formed and to contain the issuing instant; aware datetimes are instants, naive ones UTC. PyCryptodome trusted.',
          'DESIGN.md 5.3, 6/C16'),
 })
@@ -83,7 +83,7 @@ CHECKS.update({
          'DESIGN.md 5.3, 6/C08'),
  'C18': (True, 'model_checking',
          'TLA+ spec Svs checked exhaustively by TLC (action properties, open and implementation-resolved modes, deviation counterexamples); on-the-fly transition cover of the TLC state graph on the real SvsInst; recorded executions validated by TLC (SvsTrace, two-pass with named deviations)',
-         'TLC checks Monotone, EntrywiseMax, OverclaimIgnored, MissingIffRaised, PublishEmitsFullVector, HeardIsMerge, SuppressionDecision and EmitsOnlyLocal as action properties on Svs for 3 nodes, sequence numbers 0..2 (thorough: 0..3), every packet over that bound (partial, over-claiming, entries without node id or sequence number in both encoding orders, undecodable) and event sequences of any length, with everything C18 leaves open kept nondeterministic, and again with the choices resolved as sync.py does. Every (state, stimulus) pair of the implementation-resolved state graph is then applied to a real SvsInst on a v2 NDNApp on the virtual-time loop, with the public projection matched against the graph successors. Random 5-node, ~100-event histories are accepted only if SvsTrace explains every event.',
+         'TLC checks Monotone, EntrywiseMax, OverclaimIgnored, MissingIffRaised, PublishEmitsFullVector, HeardIsMerge, SuppressionDecision and EmitsOnlyLocal as action properties on Svs for 3 nodes, sequence numbers 0..2 (thorough: 0..3), every packet over that bound (partial, over-claiming, entries without node id or sequence number in both encoding orders, undecodable) and event sequences of any length, with everything C18 leaves open kept nondeterministic, and again with the choices resolved as sync.py does. Every (state, stimulus) pair of the implementation-resolved state graph is then applied to a real SvsInst on a v2 NDNApp on the virtual-time loop, with the public projection matched against the graph successors. Random 5-node, ~100-event histories are accepted only if SvsTrace explains every event. A sync Interest handled between new_data() and the timer task (PublishThenRecv) must leave the publication announced within the step; undecodable vectors include every cut inside multi-octet TLV numbers; constructor arguments come in nine representations.',
          'Trusted: TLC, the virtual-time loop, appv2 delivery to the handler, the harness vector encoder. Bounded: 3 nodes and seq <= 3 exhaustively, 5 nodes and seq <= 20 in traces. The same-loop-iteration race of packet and timer, duplicate node ids in one vector, and multi-instance convergence are not covered.',
          'DESIGN.md 5.9, 6/C18'),
 })
@@ -106,17 +106,17 @@ CHECKS.update({
          'DESIGN.md 5.5, 6/C13'),
  'C14': (True, 'model_checking',
          'TLA+/TLC model checking of TrustChain + spec-to-code graph walk (belief-set conformance) on lvs_validator over materialised certificate worlds + code-to-spec trace validation (TrustChainTrace)',
-         'Exhaustive model checking of an implementation-shaped TLA+ model of lvs_validator/CascadeChecker (schema check per link, anchor / per-instance key cache / fetch, signature verification, verdict) over all certificate hierarchies of depth 1..4 with one deviation at each link and all orders and cross-instance interleavings of up to 3 validations by two instances with good and bad anchors: verdict = ChainExists (declarative form checked equal to the key-locator walk), InstanceIndependent, ConstructorRefuses, termination; bound to the code by materialising every world with real EC/RSA/Ed25519 keys, real certificates and a compiled LVS schema and walking the state graph on lvs_validator over a virtual face with a producer that serves, Nacks or drops certificate Interests, and by TLC trace validation of random certificate graphs with 4 instances and 10 packets.',
+         'Exhaustive model checking of an implementation-shaped TLA+ model of lvs_validator/CascadeChecker (schema check per link, anchor / per-instance key cache / fetch, signature verification, verdict) over all certificate hierarchies of depth 1..4 with one deviation at each link and all orders and cross-instance interleavings of up to 3 validations by two instances with good and bad anchors: verdict = ChainExists (declarative form checked equal to the key-locator walk), InstanceIndependent, ConstructorRefuses, termination; bound to the code by materialising every world with real EC/RSA/Ed25519 keys, real certificates and a compiled LVS schema and walking the state graph on lvs_validator over a virtual face with a producer that serves, Nacks or drops certificate Interests, and by TLC trace validation of random certificate graphs with 4 instances and 10 packets. A link may name its signer by certificate name, key name or full name with implicit digest (of the served packet, of a packet nobody serves, of a twin); every key-storage kind (default, Memory, Empty, application-supplied unbounded / bounded, forgetting) is a parameter of each validator instance.',
          'Crypto abstract in the spec (a signature verifies iff made by the key the next certificate carries; forged = one flipped bit); names identify certificates; one validation at a time per instance, interleaving across instances; validity periods and revocation out of scope; schema relation of the generated names asserted equal to Checker.check on every materialised world.',
          'DESIGN.md 5.6, 6/C14'),
  'C15': (True, 'model_checking',
          'Explicit TLA+ specification of KeychainSqlite3+TpmFile (sqlite connection view vs committed DB, trigger-maintained default flags, operations as step programs with a fault point at every tpm/DB step, signer cache, close/reopen) model-checked by TLC; TLC state-graph transition cover replayed on the real keychain with proxy fault injection and compared through the public Mapping API; seeded random histories recorded from the real code and judged by TLC (KeychainTrace)',
-         'TLC exhaustively checks mapping-view consistency, at-most-one / default-when-populated, delete cascades (incl. private key files), signer-matches-key, no-signer-for-deleted-key and retry-after-failure on all histories over 2 identities x 2 keys x 2 certificates: depth 8 without faults, depth 7 with one injected fault, depth 5 with any number of faults (quick: 6 / - / 4), close/reopen anywhere. Every transition of the TLC graph out of states within 2 calls (quick: 1) plus a sample of the next layer is replayed on a real KeychainSqlite3+TpmFile and compared after each step; 1000 (100) random 40-call histories over 4 identities with faults are accepted by the spec with the invariants evaluated on every state.',
+         'TLC exhaustively checks mapping-view consistency, at-most-one / default-when-populated, delete cascades (incl. private key files), signer-matches-key, no-signer-for-deleted-key and retry-after-failure on all histories over 2 identities x 2 keys x 2 certificates: depth 8 without faults, depth 7 with one injected fault, depth 5 with any number of faults (quick: 6 / - / 4), close/reopen anywhere. Every transition of the TLC graph out of states within 2 calls (quick: 1) plus a sample of the next layer is replayed on a real KeychainSqlite3+TpmFile and compared after each step; 1000 (100) random 40-call histories over 4 identities with faults are accepted by the spec with the invariants evaluated on every state. get_signer is also asked for identities that do not exist (KeyError, never the default identity\'s signer) and with the Certificate objects the views hand out.',
          'Depth with faults is below the planned 8 (6) because state count grows about 7x per call. A storage fault is a step raising without effect; sqlite power-loss consistency and other Tpm back-ends are not covered. Fault points are counted as the n-th DB/tpm call.',
          'DESIGN.md 5.7, 6/C15'),
  'C17': (True, 'model_checking',
          'TLA+/TLC model checking of NfdReg + spec-to-code graph walk (belief-set conformance) on appv2.NDNApp+NfdRegister and legacy NDNApp under a scripted clock + code-to-spec trace validation (NfdRegTrace); parse_response judged against a TLA+ reference (NfdRegResp)',
-         'Exhaustive model checking of an implementation-shaped TLA+ model of both registration front-ends (semaphore, timestamp guard, clock free between any two reads, 8 forwarder reply kinds, declared routes over reconnects) for OneAtATime, TsStrictlyIncreasing, SuccessIff200, NeverRaises, ExactlyOneCommand, RoutesOncePerConnection; bound to the code by replaying transition-cover stimulus sequences of the state graphs on both front-ends under a scripted clock and by TLC trace validation of random 8-call schedules; every command Interest decoded and its digest/signature recomputed by an independent strict TLV reader; parse_response judged against a TLA+ reference on TLC-enumerated and random ControlResponses.',
+         'Exhaustive model checking of an implementation-shaped TLA+ model of both registration front-ends (semaphore, timestamp guard, clock free between any two reads, 8 forwarder reply kinds, declared routes over reconnects) for OneAtATime, TsStrictlyIncreasing, SuccessIff200, NeverRaises, ExactlyOneCommand, RoutesOncePerConnection; bound to the code by replaying transition-cover stimulus sequences of the state graphs on both front-ends under a scripted clock and by TLC trace validation of random 8-call schedules; every command Interest decoded and its digest/signature recomputed by an independent strict TLV reader; parse_response judged against a TLA+ reference on TLC-enumerated and random ControlResponses. Reconnections run in a new event loop in every second scenario (as run_forever does); the AppLife replay tries refused, repeated and nested route declarations and prefixes given as lists the caller mutates.',
          'Bounded: <=3 concurrent calls (A/B), 8 (C); clock 0..5; in NfdReg Disconnect only when idle (a connection ending at any point of the auto-registration is covered by AppLife.tla, whose command / handler variables are replayed into both front-ends in stage B); a silent forwarder only with one command in flight; wall clock assumed monotone; v2 validation failure injected by substituting the validator at NDNApp.express.',
          'DESIGN.md 5.8, 6/C17'),
 })
